@@ -6,7 +6,10 @@ name, rel, line, old, new = sys.argv[1:6]
 p = "/repo/" + rel
 src = open(p).read().split("\n")
 i = int(line) - 1
-assert old in src[i], (src[i], old)
+if old not in src[i]:  # tolerate small line shifts
+    cands = [j for j in range(max(0, i - 8), min(len(src), i + 9)) if old in src[j]]
+    assert cands, (src[i], old)
+    i = min(cands, key=lambda j: abs(j - i))
 orig = "\n".join(src)
 src[i] = src[i].replace(old, new, 1)
 open(p, "w").write("\n".join(src))
